@@ -63,9 +63,12 @@ inline bool ref_decode_elems(const std::string &t, const std::string &data, size
     for (size_t i = 0; i < count; ++i) out.push_back(hex(data.data() + i * es, es));
     return true;
 }
+// the description treats the serialized default as opaque bytes: it only has to START with one encoded value
 inline bool ref_decode_default(const std::string &t, const std::string &data, std::string &out) {
-    if (t == "b") { if (data.size() != 1 || (unsigned char)data[0] > 1) return false; out = data[0] ? "01" : "00"; return true; }
-    std::vector<std::string> v; if (!ref_decode_elems(t, data, 1, v)) return false; out = v[0]; return true;
+    if (t == "b") { if (data.size() < 1 || (unsigned char)data[0] > 1) return false; out = data[0] ? "01" : "00"; return true; }
+    if (t == "s32") { ByteReader r(data, 0, data.size()); uint64_t l = r.u(4); std::string b = r.bytes((size_t)l); if (!r.ok) return false; out = "s" + hex(b.data(), b.size()); return true; }
+    int es = ref_elem_size(t); if (es < 0 || data.size() < (size_t)es) return false;
+    out = hex(data.data(), es); return true;
 }
 
 // full interpretation of a file into the canonical mesh form
@@ -77,6 +80,10 @@ inline bool ref_to_canon(const std::string &s, Canon &c, std::string &err) {
     uint64_t rd[4] = {0, 0, 0, 0};
     std::vector<RefDirEntry> dir; bool have_dir = false, eof = false;
     std::vector<std::vector<std::string>> pvals;
+    // edge/face/cell counts must be matched exactly by the chunks, so absurd values are certainly inconsistent;
+    // a large vertex count alone is not (positions are optional): such files are not judged ("accepted") here
+    for (int k = 1; k < 4; ++k) if (f.n[k] > 2000000ULL) { err = "entity count mismatch (absurd)"; return false; }
+    if (f.n[0] > 2000000ULL) return true;
     c.pos.assign((size_t)f.n[0], led(0) + led(0) + led(0));
     for (auto &ch : f.chunks) {
         if (eof) { err = "chunk after EOF"; return false; }
@@ -108,12 +115,15 @@ inline bool ref_to_canon(const std::string &s, Canon &c, std::string &err) {
             while (r.left() > 0) { RefDirEntry e; e.entity = (int)r.u(1); uint64_t l = r.u(4); e.name = r.bytes((size_t)l); l = r.u(4); e.type = r.bytes((size_t)l); l = r.u(4); e.def = r.bytes((size_t)l);
                 if (!r.ok || e.entity > 6) { err = "DIRP entry"; return false; } dir.push_back(e); }
             pvals.resize(dir.size());
-            for (auto &e : dir) { CanonProp cp; cp.kind = e.entity; cp.name = e.name; cp.type = e.type; if (!ref_decode_default(e.type, e.def, cp.def)) { err = "default of " + e.name; return false; }
+            for (auto &e : dir) { CanonProp cp; cp.kind = e.entity; cp.name = e.name; cp.type = e.type;
+                if (e.type != "b" && e.type != "s32" && ref_elem_size(e.type) < 0) { cp.has_def = false; c.props[Canon::key(cp.kind, cp.name, "?" + cp.type)] = cp; continue; }   // unknown value type: skippable
+                if (!ref_decode_default(e.type, e.def, cp.def)) { err = "default of " + e.name; return false; }
                 uint64_t n = e.entity == 0 ? f.n[0] : e.entity == 1 ? f.n[1] : e.entity == 2 ? f.n[2] : e.entity == 3 ? f.n[3] : e.entity == 4 ? 2 * f.n[1] : e.entity == 5 ? 2 * f.n[2] : 1;
                 cp.vals.assign((size_t)n, cp.def); c.props[Canon::key(cp.kind, cp.name, cp.type)] = cp; }
         } else if (ch.type == "PROP") {
             uint64_t base = r.u(8), cnt = r.u(4), idx = r.u(4);
             if (!r.ok || idx >= dir.size()) { err = "PROP header"; return false; }
+            if (dir[idx].type != "b" && dir[idx].type != "s32" && ref_elem_size(dir[idx].type) < 0) continue;
             auto &cp = c.props[Canon::key(dir[idx].entity, dir[idx].name, dir[idx].type)];
             if (cnt == 0) continue;
             if (base >= cp.vals.size() || cnt > cp.vals.size() - base) { err = "PROP span"; return false; }
@@ -122,7 +132,8 @@ inline bool ref_to_canon(const std::string &s, Canon &c, std::string &err) {
         } else if (ch.flags & 1) { err = "unknown mandatory chunk"; return false; }
     }
     if (!eof) { err = "no EOF chunk"; return false; }
-    for (int k = 0; k < 4; ++k) if (rd[k] != f.n[k]) { err = "entity count mismatch"; return false; }
+    // positions may cover fewer vertices than declared (topology-only meshes have no VERT chunk at all)
+    for (int k = 1; k < 4; ++k) if (rd[k] != f.n[k]) { err = "entity count mismatch"; return false; }
     return true;
 }
 
